@@ -135,7 +135,7 @@ func C18(c *ev.Ctx) {
 			{Kind: "src", Name: tgFileName("src", 1), Lines: []tgLine{{"test", name()}, {"failing", name()}, {"oneline", name()}}}})
 	}
 	// random directories: 1-3 files, 0-4 lines each
-	for i := 0; i < c.Pick(60, 1500); i++ {
+	for i := 0; i < c.Pick(60, 6000); i++ {
 		var d []tgFile
 		nf := 1 + rr.IntN(3)
 		for j := 0; j < nf; j++ {
@@ -265,7 +265,7 @@ func C18(c *ev.Ctx) {
 			continue
 		}
 		// -out FILE gives the same bytes as standard output, whatever FILE held before (sampled)
-		if len(wantL) > 0 && outRuns < c.Pick(4, 40) {
+		if len(wantL) > 0 && outRuns < c.Pick(4, 150) {
 			outRuns++
 			for _, mode := range []string{"-go", "-coq"} {
 				wantOut := goOut
@@ -289,7 +289,7 @@ func C18(c *ev.Ctx) {
 			}
 		}
 		// the generated Go file compiles against the package (sampled)
-		if len(wantL) > 0 && (compiled < c.Pick(3, 25) || tgMustCompile(d)) && tgCompilable(d) {
+		if len(wantL) > 0 && (compiled < c.Pick(3, 60) || tgMustCompile(d)) && tgCompilable(d) {
 			compiled++
 			if msg := tgCompile(c, root, goOut); msg != "" {
 				c.Violation("testgen.compile", "the generated Go test file does not compile against the package:\n"+msg, map[string]string{"dir.json": jsonStr(d), "go.out": goOut})
